@@ -469,6 +469,23 @@ func leaserMonitors(f *fakeConsul, node string, callNo int, op, ret string, leas
 	}
 	add := func(mon, sig, detail string) { fails = append(fails, cfail{mon, sig, detail}) }
 	p := f.proj(0)
+	// whatever the call: a leaser removes the lease key only while its own session holds it (a node destroys
+	// its own lease, never somebody else's)
+	own := map[int]bool{argSid: true}
+	for i := range recs {
+		if recs[i].Q == "session.create" {
+			own[recs[i].Sid] = true
+		}
+	}
+	for i := range recs {
+		if recs[i].Q == "kv.delete" {
+			evals++
+			if h := recs[i].Sid; h != 0 && !own[h] {
+				add("C08.lease-closed-unless-handed-off", "consul/"+op+"/deletes-key-held-by-another-session",
+					fmt.Sprintf("%s removed the lease key while session %d (not its own) held the lock", op, h))
+			}
+		}
+	}
 	switch op {
 	case "acquire", "acqx":
 		evals++
